@@ -1,28 +1,34 @@
 /-
 Specification for C06: the abstract provider directory with *eager* expiry.
 
-State: the set of current announcements `(chunk, peer, expiry)`, one per (chunk, peer).
-A lookup at time `t` returns exactly the peers with `t < expiry`.  An announcement replaces the
-peer's previous one; a withdrawal removes it; when more than 20 *live* providers would remain,
-any 20 of them expiring last are kept (ties resolved by the `keep` argument: the specification
-is deliberately nondeterministic there, like `std::sort`).  Sweeps do not exist at this level.
+State: per chunk, the current announcements `(peer, expiry)`.  A lookup at time `t` returns
+exactly the announcements with `t < expiry`.  An announcement replaces the peer's previous one
+for that chunk; a withdrawal removes it; when more than 20 *live* providers would remain, any 20
+of them expiring last are kept (ties resolved by the `keep` argument: the specification is
+deliberately nondeterministic there, like `std::sort`).  Sweeps do not exist at this level, and
+no provider ever disappears for any reason other than its own expiry, a withdrawal, a newer
+announcement by the same peer, or the cut to the 20 latest-expiring.
 The literal 20 is the number in the property statement, not the generated constant.
 -/
 namespace EphVerif.C06Spec
 
+/-- an announcement as a lookup reports it: who provides, and until when -/
 structure Ann where
-  chunk : String
   peer : String
   exp : Int
 deriving DecidableEq, Repr, Inhabited
 
-abbrev S := List Ann
+/-- chunk ↦ announcements -/
+abbrev S := String → List Ann
+
+def empty : S := fun _ => []
+
+def set (s : S) (c : String) (v : List Ann) : S := fun k => if k = c then v else s k
 
 def liveAt (now : Int) (a : Ann) : Bool := decide (now < a.exp)
 
 /-- everything the directory knows about `c` that is live at `now` -/
-def find (s : S) (now : Int) (c : String) : List Ann :=
-  s.filter (fun a => a.chunk == c && liveAt now a)
+def find (s : S) (now : Int) (c : String) : List Ann := (s c).filter (liveAt now)
 
 /-- `keep` is a legal choice of "the 20 expiring last" among `base` -/
 def validKeep (base : List Ann) (keep : List String) : Bool :=
@@ -42,18 +48,17 @@ def defaultKeep (base : List Ann) : List String :=
 /-- announce `(c, p)` with expiry `e` at time `now`.  Returns the new state and whether the
     supplied hint was usable (`false` = a cut was needed and the hint was not a legal choice). -/
 def add (s : S) (now : Int) (c p : String) (e : Int) (keep : Option (List String)) : S × Bool :=
-  let others := s.filter (fun a => !(a.chunk == c))
-  let base := (s.filter (fun a => a.chunk == c && a.peer != p && liveAt now a)) ++ [⟨c, p, e⟩]
+  let base := (s c).filter (fun a => a.peer != p && liveAt now a) ++ [⟨p, e⟩]
   let liveBase := base.filter (liveAt now)
-  if liveBase.length ≤ 20 then (others ++ base, true)
+  if liveBase.length ≤ 20 then (set s c base, true)
   else
     match keep with
     | some k =>
-      if validKeep liveBase k then (others ++ liveBase.filter (fun a => k.contains a.peer), true)
-      else (others ++ liveBase.filter (fun a => (defaultKeep liveBase).contains a.peer), false)
-    | none => (others ++ liveBase.filter (fun a => (defaultKeep liveBase).contains a.peer), true)
+      if validKeep liveBase k then (set s c (liveBase.filter (fun a => k.contains a.peer)), true)
+      else (set s c (liveBase.filter (fun a => (defaultKeep liveBase).contains a.peer)), false)
+    | none => (set s c (liveBase.filter (fun a => (defaultKeep liveBase).contains a.peer)), true)
 
 def withdraw (s : S) (c p : String) : S :=
-  s.filter (fun a => !(a.chunk == c && a.peer == p))
+  set s c ((s c).filter (fun a => a.peer != p))
 
 end EphVerif.C06Spec
